@@ -393,6 +393,7 @@ def run(tier, rep):
         wit['first_diff'] = [x for x in zip(el, gl) if x[0] != x[1]][:3]
         rep.violation(tag + dev, wit)
     gomod_extra = run_gomod(tier, rep, nontriv)
+    pkg_stats = run_packages(tier, rep, nontriv)
     rep.nontrivial = nontriv
     missing = [x for x in FORMS + ['missing-name', 'missing-module-loose'] if not clean_forms.get(x)]
     if missing:
@@ -404,8 +405,73 @@ def run(tier, rep):
     rep.samples = [{'features': feats[c['id']], 'main_excerpt': c['src'][-400:], 'm1_excerpt': c['files'].get('m1.py', '')[:300]} for c in (cases[5], cases[len(cases) // 2])]
     rep.extra = {'graphs': len(cases), 'exec_lines_observed': nexec_lines, 'cyclic_graphs': sum(1 for f in feats.values() if f['cyclic']),
                  'go_modules': gomod_extra, 'forms_clean_counts': clean_forms, 'shapes': sorted(set(f['shape'] for f in feats.values()))[:40]}
+    rep.extra['packages'] = pkg_stats
     rep.assumptions = ['CPython 3.11 import semantics for top-level source modules are the reference (no packages, no relative imports, no sys.modules manipulation)',
                        'only exception types are compared; every import and every cross-module access is wrapped, so no module body fails under the reference except the deliberately failing bodies of part (d), whose ImportError the importer catches']
+
+
+# ---- (f) modules inside package directories (dotted names).  gpython's package support is a simplification (DESIGN: not compared with
+# CPython); what the property demands is decided by an invariant of the run itself: no module body runs twice in one context, and every
+# importer of a dotted name gets the same module object.
+PKG_INITS = {'plain': '', 'imports-own-submodule-from': 'from pkg.sub import tok as subtok\n', 'imports-own-submodule': 'import pkg.sub\n', 'imports-other': 'import pkg.other\n',
+             'imports-both': 'from pkg.sub import tok as subtok\nfrom pkg.other import tok as othertok\n'}
+PKG_SUBS = {'plain': '', 'imports-sibling': 'import pkg.other\n', 'imports-sibling-from': 'from pkg.other import tok as otok\n', 'imports-package': 'import pkg\n'}
+PKG_STMTS = ['import pkg.sub', 'from pkg.sub import tok as t1', 'import pkg', 'import pkg.sub as s2', 'from pkg.other import tok as t3', 'import pkg.other',
+             'def f():\n    import pkg.sub\nf()', 'def g():\n    from pkg.sub import tok\n    return tok\ng()', 'import helper', 'from helper import htok']
+
+
+def package_programs(r, n):
+    out = []
+    combos = [(i, s_) for i in PKG_INITS for s_ in PKG_SUBS]
+    for k in range(n):
+        ik, sk = combos[k % len(combos)]
+        stmts = [r.choice(PKG_STMTS) for _ in range(r.randrange(1, 5))]
+        if k < 2 * len(combos):
+            stmts = [PKG_STMTS[(k // len(combos)) % 2]] + stmts          # the first import names the submodule directly
+        main = 'print("exec main")\n'
+        for st in stmts:
+            main += 'try:\n' + ''.join('    ' + l + '\n' for l in st.split('\n')) + 'except Exception:\n    print("stmt-exc")\n'
+        main += ('try:\n    from pkg.sub import tok as ta\n    from pkg.sub import tok as tb\n    from helper import htok as tc\n    ta.append(1)\n'
+                 '    print("same", ta is tb, ta is tc, len(tb), len(tc))\nexcept Exception:\n    print("final-exc")\n')
+        files = {'pkg/__init__.py': 'print("exec pkg")\n' + PKG_INITS[ik], 'pkg/sub.py': 'print("exec pkg.sub")\ntok = []\n' + PKG_SUBS[sk], 'pkg/other.py': 'print("exec pkg.other")\ntok = []\n',
+                 'helper.py': 'print("exec helper")\nfrom pkg.sub import tok as htok\n'}
+        out.append({'id': 'pk%d' % k, 'src': main, 'files': files, 'init': ik, 'sub': sk, 'stmts': stmts})
+    return out
+
+
+def run_packages(tier, rep, nontriv):
+    r = rng(PID, 'packages')
+    cases = package_programs(r, 200 if tier == 'quick' else 3000)
+    got, _ = run_vrun('exec', [{'id': c['id'], 'src': c['src'], 'files': c['files']} for c in cases], None, 30)
+    stats = {'programs': 0, 'bodies_run': 0, 'final_same_checked': 0, 'statement_exceptions': 0}
+    for c in cases:
+        g = got.get(c['id'])
+        if g is None or g.get('timeout'):
+            rep.inconc('package program %s: no result' % c['id'])
+            continue
+        rep.evaluations += 1
+        stats['programs'] += 1
+        w = {'case': {'id': c['id'], 'src': c['src'], 'files': c['files']}, 'got': {k: short(v, 1500) for k, v in g.items() if k in ('out', 'exc', 'excmsg', 'panic', 'stack', 'crash')}}
+        if g.get('panic') or g.get('crash'):
+            rep.violation('C19|package|init=%s|panic' % c['init'], w)
+            continue
+        lines = (g.get('out') or '').split('\n')
+        execs = [l for l in lines if l.startswith('exec ')]
+        stats['bodies_run'] += len(execs)
+        stats['statement_exceptions'] += lines.count('stmt-exc')
+        nontriv.add(('package', c['init'], c['sub'], tuple(c['stmts'])))
+        dup = sorted({l for l in execs if execs.count(l) > 1})
+        if dup:
+            rep.violation('C19|package|init=%s|sub=%s|body-ran-twice:%s' % (c['init'], c['sub'], dup[0][5:]), dict(w, first_statement=c['stmts'][0]))
+            continue
+        same = [l for l in lines if l.startswith('same ')]
+        if same:
+            stats['final_same_checked'] += 1
+            if same[0] != 'same True True 1 1':
+                rep.violation('C19|package|init=%s|sub=%s|importers-hold-different-objects' % (c['init'], c['sub']), dict(w, first_statement=c['stmts'][0]))
+    if not stats['final_same_checked']:
+        rep.broke('no package program reached its final identity check')
+    return stats
 
 
 def line_class(line, f, c):
